@@ -8,11 +8,16 @@ PROP = "C12"
 MODULES = ["CassisModel.Properties.C12"]
 THEOREMS = [
     "Cassis.TsXml.load_consistent",
-    "Cassis.TsXml.toDescriptor_user_sorted",
-    "Cassis.TsXml.renderType_fields",
-    "Cassis.TsXml.renderFeat_fields",
+    "Cassis.TsXml.load_declares",
+    "Cassis.TsXml.load_declares_exact",
+    "Cassis.TsXml.load_only_declared",
+    "Cassis.TsXml.load_ok_predefined_match",
+    "Cassis.TsXml.checkPredefined_super_diff_error",
     "Cassis.TsXml.creationOrder_sound",
-    "Cassis.TsXml.load_predefined_diff_error",
+    "Cassis.TsXml.renderFeat_mk",
+    "Cassis.TsXml.renderType_fields",
+    "Cassis.TsXml.toDescriptor_user_sorted",
+    "Cassis.TsXml.load_redeclared_reg",
 ]
 ASSUMPTIONS = [
     "proved: every type system the model's descriptor reader builds is one tree with consistent feature bookkeeping (it only uses create_type/create_feature on the built-in table), types are created supertypes first for every order of declaration, the writer emits the user types sorted by name with every declared field, a built-in redeclared with a different supertype is rejected",
